@@ -145,8 +145,8 @@ PROPS["C09"] = {
          "symbolic": "3 IPv6 ranges + probe, full u128", "bound": "3 ranges, unwind 18",
          "oracle": "exists i: start_i <= x <= end_i", "min_covers": 5},
     ],
-    "not_covered": "lists longer than the stated sizes, the per-family split and CIDR conversion inside "
-                   "ComparisonExpr::compile (see c09 ip harnesses), byte-string sets (BTreeSet), absent field => false",
+    "not_covered": "lists longer than the stated sizes, mixed-family lists of several items and byte-string sets "
+                   "(thorough-tier attempts, undecided), list text",
 }
 
 PROPS["C17"] = {
@@ -170,8 +170,8 @@ PROPS["C17"] = {
          "symbolic": "Int(i64) value", "bound": "loop-free",
          "oracle": "always => true, never => false, unchanged by clear()", "min_covers": 1},
     ],
-    "not_covered": "delegation of `x in $name` from compiled filters, per-type matcher routing, list-name lexing, "
-                   "matcher state across serde (AST / ExecutionContext / serde are outside what CBMC decides here)",
+    "not_covered": "delegation of `x in $name` to the installed matcher (thorough-tier attempt, undecided), per-type list "
+                   "lookup at parse time, matcher state across clear/serde (ExecutionContext / serde are outside what CBMC decides here)",
 }
 
 PROPS["C15"] = {
@@ -268,8 +268,9 @@ PROPS["C06"] = {
          "oracle": "same", "min_covers": 3},
     ],
     "assumptions": ["text inputs are ASCII (every byte < 0x80); non-ASCII text is outside the claim"],
-    "not_covered": "integer text in three radixes, quoted strings as a whole, hex-pair strings beyond one pair, IP/CIDR "
-                   "text, index literals, 'consumes exactly the literal' beyond these kernels",
+    "not_covered": "digit text in three radixes and address/CIDR text (the leaf lexers are stubbed in the rule harnesses), "
+                   "quoted strings as a whole, hex-pair strings beyond one pair, map-key literals, 'consumes exactly the "
+                   "literal' beyond these kernels",
 }
 
 PROPS["C05"] = {
@@ -374,8 +375,8 @@ PROPS["C10"] = {
          "encodes": ["Avx2Searcher<[u8;2]>"], "symbolic": "needle 2, anchor, haystack <= 10", "bound": "haystack <= 10, unwind 13",
          "oracle": "naive window search", "min_covers": 4},
     ],
-    "not_covered": "16/32-byte block boundaries, needles > 4, the engine's own dispatch (length -> searcher, anchor range, "
-                   "USE_AVX2 latch), the memchr/memmem paths (cpuid is not executable under Kani)",
+    "not_covered": "16/32-byte block boundaries, needles > 4 in haystacks longer than the needle, the boxed searcher "
+                   "(> 16 bytes), the USE_AVX2 latch itself and the scalar memchr/memmem paths (cpuid is not executable under Kani)",
 }
 
 PROPS["C11"] = {
